@@ -19,7 +19,9 @@ CFG = {
         "bounds": "operand widths 1,2,4,8 bytes fully symbolic (shift amounts incl. >= width, mixed shift-amount widths); "
                   "division/remainder equivalence only at 1 and 2 bytes (wider: only the division-by-zero clause); "
                   "16-byte operands for piece(8+8), add/sub/bitwise/compare and the 'reports unknown' clause; "
-                  "domain wrapper: one operation per harness on 17 binary, 5 unary, 5 cast operations and 3 subpiece shapes; loop unwinding 4 with unwinding assertions on",
+                  "domain wrapper: one operation per harness on 17 binary, 5 unary, 5 cast operations and 3 subpiece shapes, operands of equal width only "
+                  "(a shift through the wrapper whose amount has another width than the value is out of reach: 56 GB / no result in 15 min; the unwrapped Bitvector shifts are covered with mixed widths); "
+                  "Expression::bytesize of every binary operation at concrete operand widths (quick: the 8 operations with a non-trivial width rule); loop unwinding 4 with unwinding assertions on",
         "oracle": "P-Code reference-manual semantics written on native machine integers (src/c01.rs: ref_binop/ref_unop/ref_cast); SDIV/SREM follow the Ghidra emulator (truncating, MIN/-1 wraps)",
     },
     "C02": {
@@ -129,7 +131,7 @@ def run(prop, tier):
         return finish(prop, v, inc)
     # thorough harnesses need 3-5 GB each (62 GB machine): fewer in parallel
     jobs = int(os.environ.get("VERIF_JOBS", "12" if tier == "quick" else "8"))
-    per_harness = int(os.environ.get("VERIF_HARNESS_TIMEOUT", "600" if tier == "quick" else "2700"))
+    per_harness = int(os.environ.get("VERIF_HARNESS_TIMEOUT", "600" if tier == "quick" else "3600"))
     extra = list(cfg.get("extra_cbmc", []))
     if cfg.get("unwindset"):
         # per-loop bounds for the few genuinely data-dependent loops; the loop ids are read from this build's symbol maps
